@@ -29,6 +29,7 @@ func init() {
 
 type c08World struct {
 	*imp.World
+	sharedBlock jen.Code       // one Block group used as a case body and as a function body
 	placeholder *jen.Statement // an empty statement inside a List inside a call, filled later
 	phFilled    bool
 	frags       []*jen.Statement
@@ -238,6 +239,25 @@ var c08Ops = func() []c08Op {
 	add("File.Render", func(w *c08World) bool {
 		w.Log = append(w.Log, "File.Render")
 		w.fileRender(fmt.Sprintf("File.Render #%d", w.nRenders+1))
+		return true
+	})
+	// one Block used in two statements of the File: as the body of a case clause and of a function
+	shared := func(w *c08World) jen.Code {
+		if w.sharedBlock == nil {
+			w.sharedBlock = (*jen.Block(jen.Id("_").Op("=").Lit(7)))[0] // the group itself
+		}
+		return w.sharedBlock
+	}
+	add("AddCaseWithSharedBlock", func(w *c08World) bool {
+		w.nfn++
+		w.F.Func().Id(fmt.Sprintf("Zshc%d", w.nfn)).Params().Block(jen.Switch(jen.Lit(0)).Block(jen.Case(jen.Lit(1)).Add(shared(w))))
+		w.Log = append(w.Log, "func(){switch 0 {case 1: <shared block>}}")
+		return true
+	})
+	add("AddFuncWithSharedBlock", func(w *c08World) bool {
+		w.nfn++
+		w.F.Func().Id(fmt.Sprintf("Zshf%d", w.nfn)).Params().Add(shared(w))
+		w.Log = append(w.Log, "func() <shared block>")
 		return true
 	})
 	add("File.GoString", func(w *c08World) bool {
